@@ -12,6 +12,7 @@ func init() { Registry["C14"] = runC14 }
 
 func runC14(c *Ctx) {
 	R := c.R
+	defer c.include("C14.S2", "C04", []string{"C04.R6"}, "a truncated or malformed field is reported as an error, never as a crash: the codec that decodes client bytes runs under a deferred function that itself calls recover and stores the error result", 3)
 	defer c.include("C14.S1", "C08", []string{"C08.R2"}, "NULL fields become nil and only those: the -1 sentinel is tested by equality and an empty field is not nil", 3)
 	R.Technique = "bounds obligations (E-BND/E-LIN) and guard-dominance rules on the binary COPY row reader; sentinel equality rules; provenance of the per-column scanners"
 	R.Explanation = "Value decoding (what pgx codecs return) and independence from how the client splits the stream are runtime clauses that static analysis does not decide; the second one is in fact violated on this tree (open finding R3: a row that spans two CopyData messages is not reassembled). Decided structural clauses: (R1) the field count of a row is compared by equality with the number of declared columns before the row is allocated or decoded, and every index into the scanners and the row is proved in range; " +
